@@ -3393,3 +3393,46 @@ def check_boundary_agreement(ck, rule, prog, bodies, what):
                                                    "DISAGREE about the value %s itself: %s" % (nm, "; ".join("%s uses `%s`" % (x[1].short, {"Lt": "<", "Le": "<=", "Gt": ">", "Ge": ">="}[x[3]]) for x in xs))),
               where=xs[0][1].where(xs[0][2]))
     return n
+
+
+# =====================================================================================================
+# SELFCMP: a comparison impl compares `self` with `other`
+# =====================================================================================================
+def check_comparison_impls(ck, rule, prog, file_rx, floor=0):
+    """in every hand-written or derived `PartialEq::eq` / `Ord::cmp` / `PartialOrd::partial_cmp` of the crate types in `file_rx`, each comparison
+    (a call of eq / ne / cmp / partial_cmp / lt ..., or a primitive comparison) takes one operand from `self` and one from `other`.
+    `self.id.cmp(&self.id)` is `Equal` for every pair: two different records with the same first key collapse into one in every ordered
+    collection (BTreeSet / BTreeMap / sort + dedup) the type is put into."""
+    from prov import Prov, params_of
+    pv = Prov(prog, inline=False)
+    CMP = ("eq", "ne", "cmp", "partial_cmp", "lt", "le", "gt", "ge", "total_cmp")
+    n = 0
+    for b in sorted(prog.production(), key=lambda x: x.id):
+        if b.kind != "AssocFn" or not b.impl_trait or b.impl_trait.split("<")[0] not in ("std::cmp::PartialEq", "std::cmp::Ord", "std::cmp::PartialOrd") or not re.search(file_rx, b.file or "") or b.name not in ("eq", "cmp", "partial_cmp"):
+            continue
+        bad = []
+        seen = 0
+        for fb in prog.family(b):
+            for bi, t in fb.calls():
+                if t.callee.method in CMP and len(t.args) == 2:
+                    ps = [params_of(pv.of_operand(fb, a), b.id) for a in t.args]
+                    if all(ps):
+                        seen += 1
+                        if ps[0] == ps[1] and len(ps[0]) == 1:
+                            bad.append((fb, t.line, t.callee.method, next(iter(ps[0]))))
+            for pos, s in fb.stmts():
+                if s.k == "assign" and s.rv["k"] == "bin" and s.rv["op"] in ("Eq", "Ne", "Lt", "Le", "Gt", "Ge"):
+                    ps = [params_of(pv.of_operand(fb, o), b.id) for o in (s.rv["l"], s.rv["r"])]
+                    if all(ps):
+                        seen += 1
+                        if ps[0] == ps[1] and len(ps[0]) == 1:
+                            bad.append((fb, s.line, s.rv["op"], next(iter(ps[0]))))
+        if not seen:
+            continue
+        n += 1
+        ck.ob(rule, "self-vs-other/%s" % b.short, not bad, "%s: %s" % (b.short, "each of its %d comparison(s) takes one operand from each side" % seen if not bad else
+              "the comparison `%s` (line %s) takes BOTH operands from `%s`: it answers the same for every pair, so records that agree in the keys compared before it are equal to the collection" % (bad[0][2], bad[0][1], b.local_name(bad[0][3]))),
+              where=(bad[0][0] if bad else b).where(bad[0][1] if bad else None))
+    if floor:
+        ck.floor(rule, "comparison impls of the record types", n, floor, soft=True)
+    return n
